@@ -14,7 +14,7 @@ EXTENDS Integers, Sequences, FiniteSets, TLC, Json
 VARIABLE sc
 Vers == {"1b1", "1b2", "1b3"}
 Base(v) == [ver |-> v, win |-> "fixed", decoy |-> <<"none", "none">>, t |-> "mid", life |-> 3600, method |-> "GET", reqhdr |-> "none", resphdr |-> "none", cc |-> {}, ccform |-> "one",
-            expireshdr |-> FALSE, status |-> 200, vurl |-> "same", ct |-> TRUE, integ |-> "right"]
+            expireshdr |-> "none", status |-> 200, vurl |-> "same", ct |-> TRUE, integ |-> "right"]
 \* win: where the signed window lies ("present" = around the verifying process's own clock, which is NOT an input);
 \* t: the instant handed to the verifier, relative to the window or a fixed sentinel (zero = the zero time.Time)
 \* decoy: a second member of the Signature list, before or after the genuine one, that fails exactly one per-signature condition
@@ -28,7 +28,8 @@ Options == [ win |-> {"present"},
              resphdr |-> {"set-cookie", "Set-Cookie", "SET-COOKIE", "keep-alive", "Strict-Transport-Security", "www-authenticate", "x-harmless", "set-cookies"},
              cc |-> (SUBSET {"no-store", "private", "public", "max-age", "s-maxage", "no-cache"}) \ {{}},
              ccform |-> {"multi", "upper"},
-             expireshdr |-> {TRUE},
+             expireshdr |-> {"date", "zero", "neg", "iso", "junk", "empty"},     \* the VALUE of an Expires header: an HTTP-date, "0", "-1", an ISO-8601 instant, a word, the empty string
+
              status |-> {199, 203, 302, 307, 404, 418, 500, 599},
              vurl |-> {"otherhost", "http", "otherport", "p443", "upperhost", "otherpath", "subdomain", "relpath", "empty", "schemerel"},
              ct |-> {FALSE},
@@ -56,7 +57,7 @@ NoStateful(s) == HasRequest(s) => Lower(s.reqhdr) \notin Stateful
 NoUncached(s) == Lower(s.resphdr) \notin Uncached
 Storable(s) == /\ s.status \in Understood
                /\ "no-store" \notin s.cc /\ "private" \notin s.cc
-               /\ \/ s.expireshdr \/ "max-age" \in s.cc \/ "s-maxage" \in s.cc \/ s.status \in DefaultCacheable \/ "public" \in s.cc
+               /\ \/ s.expireshdr \notin {"none", "empty"} \/ "max-age" \in s.cc \/ "s-maxage" \in s.cc \/ s.status \in DefaultCacheable \/ "public" \in s.cc
 B3(s) == s.ver = "1b3" => (s.ct /\ Storable(s))
 Ok(s) == Window(s) /\ Lifetime(s) /\ SameOrigin(s) /\ Method(s) /\ NoStateful(s) /\ NoUncached(s) /\ s.integ = "right" /\ B3(s)
 
@@ -88,7 +89,10 @@ EachConditionNecessary ==
   /\ ~Ok(Set1(Base("1b3"), "integ", "other"))
   /\ ~Ok(Set1(Base("1b3"), "cc", {"no-store"})) /\ Ok(Set1(Base("1b2"), "cc", {"no-store"}))
   /\ ~Ok(Set1(Base("1b3"), "status", 302)) /\ Ok(Set1(Set1(Base("1b3"), "status", 302), "cc", {"public"}))
-  /\ ~Ok(Set1(Set1(Base("1b3"), "expireshdr", TRUE), "cc", {"private"}))        \* Expires never overrides no-store / private
+  /\ ~Ok(Set1(Set1(Base("1b3"), "expireshdr", "date"), "cc", {"private"}))        \* Expires never overrides no-store / private
+  \* RFC 7234 section 3 asks for the PRESENCE of an Expires field (an invalid date means "already expired", section 5.3, not "absent")
+  /\ Ok(Set1(Set1(Base("1b3"), "status", 302), "expireshdr", "zero")) /\ Ok(Set1(Set1(Base("1b3"), "status", 302), "expireshdr", "date"))
+  /\ ~Ok(Set1(Set1(Base("1b3"), "status", 302), "expireshdr", "empty"))
   /\ ~Ok(Set1(Base("1b3"), "status", 599))
 \* the spelling of the Cache-Control value never matters
 SpellingIrrelevant == \A v \in Vers : \A c \in Options.cc : \A f \in Options.ccform : Ok(Set1(Set1(Base(v), "cc", c), "ccform", f)) = Ok(Set1(Base(v), "cc", c))
